@@ -153,6 +153,7 @@ package webrtc
 // set grows by exactly the new id (nothing else changes; on failure nothing changes).
 //@ func (*SCTPTransport).generateAndSetDataChannelID
 //@ props C18
+//@ modifies *idOut, maps(r.dataChannelIDsUsed)
 //@ requires r != nil && idOut != nil && r.dataChannelIDsUsed != nil && !sameobj(idOut, r)
 //@ requires r.maxChannels == nil || *r.maxChannels == 65535
 //@ observe dtlsRole
@@ -415,3 +416,69 @@ package webrtc
 //@ ensures specDTLSRole(specRoleOfSetup(offerSetup), cfgAns, specICEControlling(false, offLite, ansLite)) == specRoleOfSetup(specAnswerSetup(cfgAns, specRoleOfSetup(offerSetup), offLite, ansLite))
 //@ ensures specDTLSRole(specRoleOfSetup(specAnswerSetup(cfgAns, specRoleOfSetup(offerSetup), offLite, ansLite)), cfgOff, specICEControlling(true, ansLite, offLite)) != specRoleOfSetup(specAnswerSetup(cfgAns, specRoleOfSetup(offerSetup), offLite, ansLite))
 //@ ensures offerSetup != sdp.ConnectionRoleActpass ==> specDTLSRole(specRoleOfSetup(specAnswerSetup(cfgAns, specRoleOfSetup(offerSetup), offLite, ansLite)), cfgOff, specICEControlling(true, ansLite, offLite)) == specRoleOfSetup(offerSetup)
+
+
+// ---------------------------------------------------------------- C19 (second sentence)
+//@ func specChannelType
+//@ pure
+//@ nosafety
+//@ func specTypeOrdered
+//@ pure
+//@ nosafety
+//@ func specTypeHasRetransmits
+//@ pure
+//@ nosafety
+//@ func specTypeHasLifeTime
+//@ pure
+//@ nosafety
+//@ func specValidChannelType
+//@ pure
+//@ nosafety
+
+//@ field DataChannel.ordered props C19 writers
+//@ field DataChannel.maxRetransmits props C19 writers
+//@ field DataChannel.maxPacketLifeTime props C19 writers
+//@ field DataChannel.label props C19 writers
+//@ field DataChannel.protocol props C19 writers
+//@ field DataChannel.negotiated props C19 writers
+//@ field DataChannel.api props C19 writers
+
+//@ func (logging.LoggerFactory).NewLogger
+//@ trusted
+//@ modifies nothing
+
+// Assumed contract on pion/datachannel: reading the stream identifier does not write memory.
+//@ func (*datachannel.DataChannel).StreamIdentifier
+//@ trusted
+//@ modifies nothing
+
+// What open() announces in-band (region up to datachannel.Dial): channel type and
+// reliability parameter encode the channel's ordered flag and limits; label, protocol
+// and negotiated flag are copied.
+//@ func (*DataChannel).open #announce
+//@ props C19
+//@ nosafety
+//@ requires d != nil && sctpTransport != nil && d.api != nil && d.api.settingEngine != nil
+//@ requires d.maxRetransmits == nil || d.maxPacketLifeTime == nil
+//@ atcall datachannel.Dial assert cfg.ChannelType == specChannelType(d.ordered, d.maxRetransmits != nil, d.maxPacketLifeTime != nil)
+//@ atcall datachannel.Dial assert (d.maxRetransmits != nil ==> cfg.ReliabilityParameter == uint32(*d.maxRetransmits)) && (d.maxPacketLifeTime != nil ==> cfg.ReliabilityParameter == uint32(*d.maxPacketLifeTime)) && (d.maxRetransmits == nil && d.maxPacketLifeTime == nil ==> cfg.ReliabilityParameter == 0)
+//@ atcall datachannel.Dial assert cfg.Label == d.label && cfg.Protocol == d.protocol && cfg.Negotiated == d.negotiated
+
+// What an accepted in-band channel is created with (region up to newDataChannel).
+//@ func (*SCTPTransport).acceptDataChannels #accept
+//@ props C19
+//@ nosafety
+//@ requires r != nil && r.api != nil && r.api.settingEngine != nil
+//@ atcall (*API).newDataChannel assert specValidChannelType(dc.Config.ChannelType) ==> ordered == specTypeOrdered(dc.Config.ChannelType)
+//@ atcall (*API).newDataChannel assert (maxRetransmits != nil) == specTypeHasRetransmits(dc.Config.ChannelType) && (maxPacketLifeTime != nil) == specTypeHasLifeTime(dc.Config.ChannelType)
+//@ atcall (*API).newDataChannel assert (maxRetransmits != nil ==> *maxRetransmits == uint16(dc.Config.ReliabilityParameter)) && (maxPacketLifeTime != nil ==> *maxPacketLifeTime == uint16(dc.Config.ReliabilityParameter))
+
+// decode(encode(x)) == x for every reliability setting the constructor admits.
+//@ lemma dcep_roundtrip
+//@ props C19
+//@ vars ordered bool, hasR bool, hasL bool, v uint16
+//@ requires !(hasR && hasL)
+//@ ensures specTypeOrdered(specChannelType(ordered, hasR, hasL)) == ordered
+//@ ensures specTypeHasRetransmits(specChannelType(ordered, hasR, hasL)) == hasR && specTypeHasLifeTime(specChannelType(ordered, hasR, hasL)) == hasL
+//@ ensures uint16(uint32(v)) == v
+//@ ensures specValidChannelType(specChannelType(ordered, hasR, hasL))
